@@ -28,6 +28,12 @@ pub const MODE_SCATTER: u8 = 2;
 
 static IN_LIB: AtomicBool = AtomicBool::new(false);
 static MODE: AtomicU8 = AtomicU8::new(MODE_PLAIN);
+static BYPASS: AtomicBool = AtomicBool::new(false);
+
+/// Scaling runs (C15) allocate millions of blocks and need no accounting: forward to System.
+pub fn set_bypass(b: bool) {
+    BYPASS.store(b, Relaxed);
+}
 static SCATTER_STATE: AtomicU64 = AtomicU64::new(0x1234_5678_9ABC_DEF1);
 
 pub static LIB_ALLOCS: AtomicUsize = AtomicUsize::new(0);
@@ -284,6 +290,9 @@ fn scatter_next() -> u64 {
 #[cfg(feature = "monalloc")]
 unsafe impl GlobalAlloc for MonAlloc {
     unsafe fn alloc(&self, layout: Layout) -> *mut u8 {
+        if BYPASS.load(Relaxed) {
+            return System.alloc(layout);
+        }
         let lib = IN_LIB.load(Relaxed);
         let _g = Guard::new();
         let mode = MODE.load(Relaxed);
@@ -335,6 +344,9 @@ unsafe impl GlobalAlloc for MonAlloc {
     }
 
     unsafe fn dealloc(&self, ptr: *mut u8, layout: Layout) {
+        if BYPASS.load(Relaxed) {
+            return System.dealloc(ptr, layout);
+        }
         let _g = Guard::new();
         let e = match TABLE.find(ptr as usize) {
             Some(e) if (*e).flags & F_QUAR == 0 => e,
